@@ -239,6 +239,8 @@ func C06(p *an.Prog, r *an.Report) {
 		}
 	}
 	c06Twins(p, r)
+	c06VerifierKeys(p, r)
+	c01DistinctElements(p, r, "C06.G3") // "still verifies after serialise and parse" needs every parsed list element kept distinct
 }
 
 // c06Twins (G2): the function that produces the signed bytes is the one that produces the
@@ -327,4 +329,34 @@ func fnKeyToSpec(k string) string {
 		return pkg + ".(" + typ + ")" + k[j+1:]
 	}
 	return k
+}
+
+
+// c06VerifierKeys (G4): what a constructor signs with the structure's private key only verifies if
+// the verifier uses the structure's identity key. The key-origin obligations of C05 (V2) are
+// re-evaluated here for the verifiers of the signing structures.
+func c06VerifierKeys(p *an.Prog, r *an.Report) {
+	sub := an.NewReport("C05", r.Tier, r.Seed)
+	func() {
+		defer func() {
+			if e := recover(); e != nil {
+				r.Fail("C06.G4: evaluating the verifier key origins panicked: %v", e)
+			}
+		}()
+		C05(p, sub)
+	}()
+	n := 0
+	for _, o := range sub.Obs {
+		if o.Rule != "C05.V2" {
+			continue
+		}
+		n++
+		c := *o
+		c.Rule = "C06.G4"
+		c.Key = strings.Replace(o.Key, "C05.V2/", "C06.G4/", 1)
+		r.Add(&c)
+	}
+	if n < 5 {
+		r.Fail("C06.G4: only %d verifier key-origin obligations found", n)
+	}
 }
